@@ -106,19 +106,5 @@ Definition all_nil (fs : list (list string)) : bool :=
   forallb (fun f => match f with [] => true | _ => false end) fs.
 
 (* ---------------------------------------------------------------- *)
-(* Recorded finding classes of C12 *)
-Fixpoint before (a b : N) (l : list N) : bool :=   (* a occurs, and before any b *)
-  match l with
-  | [] => false
-  | x :: r => if x =? a then true else if x =? b then false else before a b r
-  end.
-
-(* the client's parameter request list names the router (3) before the subnet mask (1) *)
-Definition known_c12_prl (m : dmsg) : bool := before 3 1 (m_prl m).
-
-Definition c12_class (c : cfg) (t : tstep) : list (string * list string) :=
-  (* AppendOptions emits the client's parameter request list first: router before mask when it says so *)
-  match op_msg (t_op t) with
-  | Some m => if known_c12_prl m then [("c12-prl-router-before-mask", ["mask-after-router"])] else []
-  | None => []
-  end.
+(* Recorded finding classes of C12: none left (c12-prl-router-before-mask was repaired by 94e2701). *)
+Definition c12_class (c : cfg) (t : tstep) : list (string * list string) := [].
